@@ -22,7 +22,7 @@ RULE_TEXT = ("Workflows whose steps (num_workers 1..4) take 1-3 injected resourc
 COMPONENTS = {"real": ["workflows.resource.ResourceManager/_Resource, step_function.partial, engine"], "stub": ["llama_index_instrumentation"],
               "sim": ["loop, clock, instrumented factories"]}
 ASSUMPTIONS = ["'one dependency resolution' = the resolution performed for one step invocation"]
-EXPECTED_PROBES = ["overlapping-resolutions", "diamond", "cycle-graph", "cached-hit", "async-factory"]
+EXPECTED_PROBES = ["falsy-cached-resource", "overlapping-resolutions", "diamond", "cycle-graph", "cached-hit", "async-factory"]
 LEVEL_TEXT = "Seeded exploration of factory durations x graph shapes x worker counts; oracle over creation/injection records of tagged objects."
 LEVEL_NOTE = "Trusted: simulator loop, factory/step instrumentation."
 
@@ -39,11 +39,20 @@ class Tag:
         return f"{self.name}#{self.n}"
 
 
+class EmptyTag(Tag):
+    """a resource that is an (empty) container: falsy, like a fresh list / registry / cache dict"""
+    __slots__ = ()
+
+    def __len__(self):
+        return 0
+
+
 def gen(tape, cfg):
     shape = tape.choice(["single", "single", "chain", "diamond", "diamond", "cycle", "two"], "shape")
     return {"shape": shape, "n_events": tape.rng_int(2, 6, "n"), "workers": tape.rng_int(1, 4, "workers"),
             "cache": {k: bool(tape.draw(2, "cache." + k)) for k in "abcd"},
             "is_async": {k: bool(tape.draw(4, "async." + k)) for k in "abcd"},
+            "falsy": {k: tape.chance(25, 100, "falsy." + k) for k in "abcd"},
             "second_step": tape.chance(50, 100, "second"),
             "steps": [], "types": ["E0"], "driver": "finish", "timeout": None}
 
@@ -57,7 +66,9 @@ def build(world, spec):
 
         def _mk(deps):
             created[key] = created.get(key, 0) + 1
-            t = Tag(key, created[key], {k: v for k, v in deps.items()})
+            t = (EmptyTag if spec["falsy"][key] else Tag)(key, created[key], {k: v for k, v in deps.items()})
+            if spec["falsy"][key] and spec["cache"][key]:
+                world.probe("falsy-cached-resource")
             world.trace.log("create", res=key, n=t.n, cached=spec["cache"][key], deps={k: (v.ident() if isinstance(v, Tag) else str(v)) for k, v in deps.items()})
             return t
         if is_async:
